@@ -32,6 +32,8 @@ type C02Case struct {
 
 var c02Kinds = []string{"svc", "cfg"}
 
+var c02Routes = []string{"/api/v1", "/api/v[12]", "/api/v2", "/search?q", "/search_q", "/api/*", "/api/v.", "^/api/v1$", "/api/%s", "/api/v1\\"}
+
 func c02Tree(safe bool) gen.TreeCfg {
 	t := gen.DefaultTreeCfg()
 	t.Safe = safe
@@ -89,6 +91,9 @@ func genC02(r *gen.Rand, maxLayers int) *C02Case {
 	// several places ($repeat, list $match) — cross-format equality is C04's
 	// subject, not this check's
 	dateAttrs := !c.FileRoute && r.Chance(0.15)
+	// string values that a pattern language (glob, regexp, printf) would
+	// read as something else than themselves; $match compares for equality
+	routeAttrs := r.Chance(0.15)
 	dates := []any{
 		wire.Opaque{Type: "toml.LocalDate", Repr: "2024-06-01"}, wire.Opaque{Type: "toml.LocalDate", Repr: "2024-06-02"},
 		wire.Opaque{Type: "toml.LocalDateTime", Repr: "2024-06-01T10:00:00"}, wire.Opaque{Type: "toml.LocalTime", Repr: "10:00:00"},
@@ -130,6 +135,9 @@ func genC02(r *gen.Rand, maxLayers int) *C02Case {
 		if bigIDs {
 			// 64-bit identifiers that differ only in their low bits
 			doc["uid"] = 1180591620717411300 + i*3
+		}
+		if routeAttrs {
+			doc["route"] = c02Routes[(i+tagShift)%len(c02Routes)]
 		}
 		if dateAttrs {
 			doc["released"] = dates[(i+tagShift)%len(dates)]
@@ -252,6 +260,7 @@ func genC02(r *gen.Rand, maxLayers int) *C02Case {
 				delete(patch, "kind")
 				delete(patch, "uid")
 				delete(patch, "released")
+				delete(patch, "route")
 				delete(patch, "tags")
 				delete(patch, "ports")
 				delete(patch, "meta")
@@ -288,6 +297,13 @@ func genC02(r *gen.Rand, maxLayers int) *C02Case {
 					map[string]any{"ports": []any{map[string]any{"pname": "app"}, map[string]any{"pname": "app"}, map[string]any{"image": "redis"}}},
 					map[string]any{"tags": []any{"dev"}, "$invert": true},
 				})
+			} else if routeAttrs && r.Chance(0.6) {
+				rt := gen.PickAny(r, c02Routes)
+				if r.Chance(0.25) {
+					patch["$match"] = map[string]any{"route": rt, "$invert": true}
+				} else {
+					patch["$match"] = map[string]any{"route": rt}
+				}
 			} else if dateAttrs && r.Chance(0.6) {
 				d := gen.PickAny(r, dates)
 				if r.Chance(0.3) {
